@@ -98,9 +98,12 @@ def _perm(n, key):
     return idx
 
 
+EXTRA_COLUMN = "verif_undeclared"
+
+
 def make_pandas(tbl, kinds, nm=IDENT, int_cols=(), variant=None):
     """variant (C18/C19): None | "perm" (rows permuted) | "perm_keepidx" (permuted, shuffled integer index kept)
-    | "dupidx" (all index labels equal) | "stridx" (text index)"""
+    | "dupidx" (all index labels equal) | "stridx" (text index) | "extracol" (C08: one more column than described)"""
     data = {}
     for c in tbl["cols"]:
         vals = [r[c] for r in tbl["rows"]]
@@ -120,6 +123,9 @@ def make_pandas(tbl, kinds, nm=IDENT, int_cols=(), variant=None):
         df.index = [7] * n
     elif variant == "stridx" and n > 0:
         df.index = ["r%d" % (n - i) for i in range(n)]
+    elif variant == "extracol":
+        # the input has a column its description does not mention (C08), placed first
+        df.insert(0, EXTRA_COLUMN, 7.0)
     return df
 
 
@@ -137,6 +143,9 @@ def make_polars(tbl, kinds, nm=IDENT, variant=None):
         else:
             data[nm.c(c)] = [nval(v) for v in vals]
             schema[nm.c(c)] = polars.Float64
+    if variant == "extracol":
+        data = dict([(EXTRA_COLUMN, [7.0] * len(rows))] + list(data.items()))
+        schema = dict([(EXTRA_COLUMN, polars.Float64)] + list(schema.items()))
     return polars.DataFrame(data, schema=schema)
 
 
@@ -418,7 +427,7 @@ class Backends:
         return res
 
     def load_sqlite(self, case, nm=IDENT, frames=None, variant=None):
-        fr = frames if frames is not None else self.frames(case, nm, variant=("perm" if variant else None))
+        fr = frames if frames is not None else self.frames(case, nm, variant=(variant if variant == "extracol" else "perm" if variant else None))
         for t, f in fr.items():
             self.sqlite.insert_table(f, table_name=t, allow_overwrite=True)
 
